@@ -430,6 +430,10 @@ def finish(ctx, level="model_checking", rule="", exhaustive=False, checker_cmd=N
 # ----------------------------------------------------------------------------------------------
 # deterministic PRNG for drivers (all randomness derives from VERIF_SEED)
 
+MARKERS = [0x00, 0x01, 0x06, 0x08, 0x0A, 0x0B, 0x0C, 0x0D, 0x0E, 0x10, 0x11, 0x12, 0x13, 0x14, 0x2E, 0x2F, 0x5B, 0x5C, 0x5E, 0x5F,
+           0x60, 0x68, 0x70, 0x79, 0x7F, 0x80, 0x86, 0xA0, 0xA1, 0xA2, 0xA4, 0xFF]
+
+
 class Rng:
     def __init__(self, seed):
         self.s = (seed * 0x9E3779B97F4A7C15 + 0x1234567) & 0xFFFFFFFFFFFFFFFF
@@ -456,7 +460,11 @@ class Rng:
     def scalar(self, width):
         """A width-byte scalar biased to boundaries, single-bit and byte-fill patterns; returns LE byte list."""
         bits = 8 * width
-        k = self.below(10)
+        k = self.below(12)
+        if k >= 10:
+            # bytes that mean something to an encoder or a parser (AML opcodes and prefixes, the resource end tag 0x79,
+            # NUL, '\\', '^', '.', '/', '_'), zero half of the time: values that mimic structure
+            return [self.choice(MARKERS) if self.chance(1, 2) else self.choice([0x00, 0x79]) for _ in range(width)]
         if k == 0:
             v = 0
         elif k == 1:
